@@ -94,6 +94,12 @@ def smap_rule(chk: Check, ctx: Any, rule: str) -> None:
             "swap-halves": {o: (i + len(universe) // 2) % len(universe) + 1 for i, o in enumerate(universe)},
             "empty": {},
         }
+        # the same mappings with their keys inserted in another order (a mapping is a dict: what it says does not depend on the order)
+        ren = {o: i for i, o in enumerate(universe)}
+        mappings["renumber, keys inserted in descending order"] = {o: ren[o] for o in reversed(universe)}
+        dro = {o: i + 1 for i, o in enumerate(universe) if o not in rets}
+        half = len(universe) // 2
+        mappings["drop-return-ops, second half of the keys inserted first"] = {o: dro[o] for o in universe[half:] + universe[:half] if o in dro}
         if rets:
             mappings["return-op-to-zero"] = {o: (0 if o == rets[0] else i + 1) for i, o in enumerate(universe)}
         for mname, mp in mappings.items():
